@@ -87,10 +87,9 @@ def run(tier, seed):
                 chk.machinery_error('no verdict for sweeps of %s' % (c['key'],))
         for e in swst['errors']:
             chk.machinery_error('TLC(StepTrace): ' + str(e)[:1500])
-        reports, st, cases = mc.explore(progs, None, post=1, budget=4000 if quick else 100000, timeout=300 if quick else 2400)
+        reports, st, cases = mc.explore(progs, None, post=1, budget=4000 if quick else 100000, timeout=1500 if quick else 9000)
         for e in st['errors']:
-            if 'timeout' not in str(e):
-                chk.machinery_error('TLC(MachineMC): ' + str(e)[:1500])
+            chk.machinery_error('TLC(MachineMC): ' + str(e)[:1500])
         kinds = collections.Counter()
         confirmed = 0
         for p, reps in zip(progs, reports):
